@@ -23,33 +23,38 @@ def run(R):
     with R.guard('C16.R1'):
         b = web.body(re.compile(r'service::GrpcWebService<S> as tower_service::Service<http::Request<ReqBody>>>::call$'))
         R.saw(b)
-        rets = [(bb, i, ops, a) for bb, i, p, a, ops in mirlib.aggregates(b, 'service::ResponseFuture') if p['l'] == 0]
-        R.floor('C16.R1', 'dispatch arms', len(rets), 4)
+        # by feasible path: the Case stored in the returned ResponseFuture against the request kind / method / version tests passed
         table = {}
-        for bb, i, ops, a in rets:
-            g = b.edge_guards(bb)
+        prow = mirlib.path_rows(b, relevant=lambda sub_: sub_.startswith('discr('))
+        R.floor('C16.R1', 'dispatch arms', len(prow), 4)
+        for cons, path in prow:
+            bb = path[-1]
+            val = strip_refs(mirlib.simplify(b.ret_on_path(path)))
+            if not (val and val[0] == 'agg' and (val[1].get('adt') or '').endswith('service::ResponseFuture')):
+                R.bad('C16.R1', 'row-shape', site(b, bb), 'call() returns %s' % show(val)[:100], kind='UNRECOGNISED')
+                continue
             kind = None
             method = None
             version = None
-            for s, vals, tm in g:
-                if tm[0] != 'discr' or not tm[2]:
+            for s, tm, vals in b.path_tests(path):
+                if tm[0] != 'discr' or len(tm) < 3 or not tm[2]:
                     continue
                 names = {v: n for v, n in tm[2]}
-                sv = show(tm)
                 if (tm[3] or '').endswith('service::RequestKind'):
-                    kind = [names.get(v, v) for v in vals]
-                elif 'method' in sv and 'GrpcWeb' in sv:
+                    kind = [names.get(v, v) for v in vals] if vals != ['else'] else [n for v, n in tm[2] if v not in [a_ for a_, _ in b.term(s)['arms']]]
+                elif (tm[3] or '').endswith('Method') or 'method::Inner' in (tm[3] or '') or term_contains(tm, lambda x: x and x[0] == 'field' and x[2] == 'method'):
                     method = ('==', tuple(names.get(v) for v in vals)) if vals != ['else'] else ('!=', tuple(names.get(v) for v, _ in b.term(s)['arms']))
-                elif 'Other' in sv:
+                elif (tm[3] or '').endswith('Version') or 'version::Http' in (tm[3] or ''):
                     version = ('==', tuple(names.get(v) for v in vals)) if vals != ['else'] else ('!=', tuple(names.get(v) for v, _ in b.term(s)['arms']))
-            case = strip_refs(b.origin(ops[0]))
+            case = strip_refs(val[2][val[1]['fields'].index('case')])
             act = None
             if case[0] == 'agg':
                 act = case[1].get('variant')
-                inner = case
             elif is_call(case, name='immediate'):
                 act = 'immediate:%s' % (constdef(case[2][0]) or '?').split('::')[-1]
             key = (tuple(kind or ()), method, version)
+            if key in table and table[key][0] != act:
+                R.bad('C16.R1', 'row-ambiguous', site(b, bb), 'dispatch %r answers both %r and %r' % (key, table[key][0], act))
             table[key] = (act, bb, case)
         want = {
             (('GrpcWeb',), ('==', ('Post',)), None): 'GrpcWeb',
@@ -97,7 +102,7 @@ def run(R):
         for bb, i, p, a, ops in mirlib.aggregates(rk, 'service::RequestKind', 'GrpcWeb'):
             f = a['fields']
             e, ac, m = rk.origin(ops[f.index('encoding')]), rk.origin(ops[f.index('accept')]), rk.origin(ops[f.index('method')])
-            R.check(is_call(e, name='from_content_type') and is_call(ac, name='from_accept') and strip_refs(m)[0] == 'arg', 'C16.R1', 'kind-fields', site(rk, bb, i), 'encoding=%s accept=%s method=%s' % (show(e)[:50], show(ac)[:50], show(m)))
+            R.check(is_call(e, name='from_content_type') and is_call(ac, name='from_accept') and (strip_refs(m)[0] == 'arg' or (is_call(strip_refs(m), name='method') and 'Request' in strip_refs(m)[1] and arg_root(strip_refs(m)[2][0]) is not None)), 'C16.R1', 'kind-fields', site(rk, bb, i), 'encoding=%s accept=%s method=%s' % (show(e)[:50], show(ac)[:50], show(m)))
             g = rk.edge_guards(bb)
             R.check(any(is_call(strip_refs(tm), name='is_grpc_web') and (vals == ['else'] or 0 not in vals) for s, vals, tm in g), 'C16.R1', 'grpc-web-iff-content-type', site(rk, bb, i), 'GrpcWeb kind only when is_grpc_web(headers)')
 
